@@ -237,6 +237,11 @@ func (s *fsm12) finish(ctx context.Context, c Conn) (State, error) {
 		if !s.currentFlight.IsLastSendFlight() {
 			return StateFinished, nil
 		}
+		// A handshake fragment that repeats nothing the peer sent before
+		// comes from somebody else.
+		if !state.IsRetransmit {
+			return StateFinished, nil
+		}
 
 		return StateSending, nil
 	case <-ctx.Done():
